@@ -1,12 +1,12 @@
 CONSTANTS
-  MaxOps = 4
+  MaxOps = 6
   MaxModels = 4
   Dump = FALSE
   BaseNames = {"A", "B", "A_BAK1"}
   BadNames = {"1x"}
   NFiles = 2
-  EditKinds = {"defs", "value"}
-  Linking = TRUE
+  EditKinds = {"defs"}
+  Linking = FALSE
 INIT Init
 NEXT Next
 VIEW View
